@@ -5,7 +5,7 @@
    observed view, only for mutations of matched dependencies and at most once per mutation. *)
 From Coq Require Import ZArith List Bool Arith Lia.
 From TV Require Import C12.Model C12.Law C12.Proofs C12.Compose.
-From TV Require C09.Model C09.Proofs.
+From TV Require C09.Model C09.Proofs C09.DynCount C09.DynSlot C09.Dyn C09.Law.
 Import ListNotations.
 Open Scope Z_scope.
 
@@ -51,6 +51,32 @@ Theorem law_holds_on_every_faithful_history :
 Proof. exact law_model. Qed.
 Print Assumptions law_holds_on_every_faithful_history.
 
+(* Re-entrant histories: a listener of the property that assigns another dependency from inside the property's own
+   notification.  The nested delivery (Model.step_nested, following the un-guarded handler of
+   _create_property_observe_state) is exactly the outer mutation followed by the nested one, so cache_inv,
+   read_is_current and the law carry over; the cache ends up holding the value of the LAST world and both values
+   are announced.  (This is what the re-entrancy guard of the seeded change C12-t2 broke.) *)
+Theorem nested_delivery_is_two_steps : forall (W : Type) (f : W -> Z) (cached : bool) (s : state W) (w1 w2 : W) (t1 t2 : bool),
+  (0 < listeners s)%nat ->
+  step_nested W f cached s w1 w2
+  = (let '(s1, ob1) := step W f cached s (Mut w1 t1 1) in
+     let '(s2, ob2) := step W f cached s1 (Mut w2 t2 1) in
+     (s2, mkObs None (o_getter ob1 + o_getter ob2)%nat (o_events ob1 ++ o_events ob2))).
+Proof. exact nested_is_two_steps. Qed.
+Print Assumptions nested_delivery_is_two_steps.
+
+Theorem nested_delivery_keeps_cache_inv : forall (W : Type) (f : W -> Z) (cached : bool) (s : state W) (w1 w2 : W),
+  inv W f (fst (step_nested W f cached s w1 w2)).
+Proof. exact nested_inv. Qed.
+Print Assumptions nested_delivery_keeps_cache_inv.
+
+Theorem nested_delivery_announces_both : forall (W : Type) (f : W -> Z) (cached : bool) (s : state W) (w1 w2 : W),
+  (0 < listeners s)%nat ->
+  exists old1 old2, o_events (snd (step_nested W f cached s w1 w2)) = [(old1, f w1); (old2, f w2)]
+                    /\ (cached = true -> cache (fst (step_nested W f cached s w1 w2)) = Some (f w2)).
+Proof. exact nested_announces. Qed.
+Print Assumptions nested_delivery_announces_both.
+
 (* The interface hypothesis is a THEOREM of the C09 registration model for changes of scalar
    dependencies on a fixed object graph: with the property's handler (hd, x, dp) registered once on the
    expression gs when the object x is created, a change of the trait o delivers to the handler exactly
@@ -71,6 +97,23 @@ Theorem static_scalar_changes_are_faithful :
                     (C09.Proofs.ncalls (hd, x, dp) (C09.Model.o_calls ob2))).
 Proof. exact Compose.static_scalar_changes_are_faithful. Qed.
 Print Assumptions static_scalar_changes_are_faithful.
+
+(* ... and for MUTATIONS OF THE OBJECT GRAPH (Instance-link reassignment, in-place list / dict / set mutation), on
+   top of the invariant proved in C09/DynCount.v and DynSlot.v for acyclic reassignments: the mutated slot's
+   notifier loop calls the property's handler exactly once iff a live registration of it matches the slot, so the
+   mutation step is faithful for every view that untouched mutations leave unchanged. *)
+Theorem graph_mutations_are_faithful :
+  forall (W : Type) (view : W -> list Z)
+         (h hrun : C09.Model.heap) (R : list C09.DynCount.reg) (H : C09.Model.hooks) (s : C09.Model.state)
+         (sg : C09.Model.obsv) (t : bool) (olds news : list C09.Model.oid) H' calls (k : C09.Model.key),
+    C09.DynCount.dinv h H R -> C09.Proofs.wfH H ->
+    C09.Model.dead_handlers s = [] -> C09.Model.dead_objs s = [] ->
+    C09.Dyn.run_notifiers hrun s t (H sg) olds news H [] = (H', calls, None) ->
+    forall (cs : state W) (w' : W),
+      (touched_by h R k sg = false -> view (world cs) = view w') ->
+      faithful W view cs (Mut w' (touched_by h R k sg) (C09.Proofs.ncalls k calls)).
+Proof. exact Compose.graph_mutations_are_faithful. Qed.
+Print Assumptions graph_mutations_are_faithful.
 
 (* REFUTED without the interface hypothesis (listed finding F23): when the observe machinery delivers nothing
    for a relevant change — which is what happens to a Property(observe=...) added with add_trait /
@@ -120,4 +163,36 @@ Example composition_nontrivial :
   /\ map (fun o => C09.Proofs.ncalls (7, 0, 0)%nat
                      (C09.Model.o_calls (snd (C09.Model.step cx_heap s1 (C09.Model.Change (fst o) (snd o))))))
          [(1, 2); (0, 2); (0, 3)]%nat = [1; 0; 1]%nat.
+Proof. vm_compute. repeat split; reflexivity. Qed.
+
+(* non-vacuity of graph_mutations_are_faithful: after registering child.value on object 0 (child = object 1) the
+   invariant holds, the slot (0, child) is touched, and un-linking the child calls the handler exactly once *)
+Example graph_mutation_nontrivial :
+  let g := C09.Model.G (C09.Model.NNamed 3%nat true false) [C09.Model.G (C09.Model.NNamed 2%nat true false) []] in
+  let k := (7, 0, 0)%nat in
+  let s0 := C09.Model.mkState (fun _ => []) [] [] in
+  let s1 := fst (C09.Model.step cx_heap s0 (C09.Model.Register 0%nat 7%nat 0%nat [g])) in
+  C09.DynCount.dinv cx_heap (C09.Model.st_hooks s1) [(k, g, 0%nat)]
+  /\ touched_by cx_heap [(k, g, 0%nat)] k (0, 3)%nat = true
+  /\ (let '(_, calls, e) := C09.Dyn.run_notifiers (C09.Dyn.set_links cx_heap 0%nat 3%nat []) s1 true
+                               (C09.Model.st_hooks s1 (0, 3)%nat) [1%nat] [] (C09.Model.st_hooks s1) [] in
+      e = None /\ C09.Proofs.ncalls k calls = 1%nat).
+Proof.
+  intros g k s0 s1. split; [|split].
+  - pose proof (C09.DynCount.register_step cx_heap (fun _ => []) [] 0%nat 7%nat 0%nat g s0 s1
+                  (snd (C09.Model.step cx_heap s0 (C09.Model.Register 0%nat 7%nat 0%nat [g])))) as Rs.
+    assert (C09.DynCount.dinv cx_heap (fun _ => []) []) as I0.
+    { split; [intros o; reflexivity|split; [intros; reflexivity|intros ? ? ? []]]. }
+    specialize (Rs I0 eq_refl). unfold s1 in *.
+    destruct (C09.Model.step cx_heap s0 (C09.Model.Register 0%nat 7%nat 0%nat [g])) as [s' ob] eqn:St.
+    specialize (Rs eq_refl). cbn [fst snd] in *.
+    assert (C09.Model.o_out ob = None) as Ok by (vm_compute in St; inversion St; reflexivity).
+    rewrite Ok in Rs. exact Rs.
+  - vm_compute. reflexivity.
+  - vm_compute. split; reflexivity.
+Qed.
+
+Example nested_nontrivial :
+  let '(s, ob) := step_nested exW ex_f true (mkState (1, 0) (Some 4) 1%nat) (5, 0) (2, 0) in
+  cache s = Some 7 /\ o_events ob = [(Some 4, 16); (Some 16, 7)] /\ o_getter ob = 2%nat.
 Proof. vm_compute. repeat split; reflexivity. Qed.
